@@ -42,7 +42,9 @@ func alphabet() [][]string {
 	a = append(a, []string{"select", "1"}, []string{"Select", "1"}, []string{"sElEcT", "0"})
 	a = append(a, []string{"select", "1", "2"}, []string{"SELECT"},
 		[]string{"@reconnect"},
-		[]string{"SET", "k", "@"}, []string{"GET", "k"}, []string{"DEL", "k"}, []string{"KEYS", "*"}, []string{"EXISTS", "k"}, []string{"APPEND", "k", "x"})
+		[]string{"SET", "k", "@"}, []string{"GET", "k"}, []string{"DEL", "k"}, []string{"KEYS", "*"}, []string{"EXISTS", "k"}, []string{"APPEND", "k", "x"},
+		// expiry metadata is per database as well: a ttl given to k in one database is not k's ttl in another
+		[]string{"EXPIRE", "k", "100"}, []string{"SETEX", "k", "100", "@"}, []string{"TTL", "k"}, []string{"PERSIST", "k"})
 	return a
 }
 
